@@ -513,7 +513,7 @@ def _h_validated_roots(ctx, R, rid):
           "Cable>Wire) of every enumeration-side factory call — reported only when definitely ill-typed; H4 is_valid has a case for each "
           "item kind of the grammar; H6 the name-map walkers and HRef.name agree on separator, top-name slice and bus suffix; H7 the "
           "downward search descends into a child that is both a target and an ancestor of a target; H8 the ancestor walks of "
-          "is_valid/is_unique use the cursor, not self. Decides canonical-object and well-formedness clauses; completeness/uniqueness of "
+          "is_valid/is_unique use the cursor, not self; H7b both work lists re-queue what they discover and nothing but `already in the set` can keep an ancestor out of the bound set; H11 every yield is de-duplicated on the value it yields and the already-returned set is subtracted from the name-map set after its last insertion; H12 a reference taken from the work list is used only after its validity test, for every item kind (must-dataflow). Decides canonical-object and well-formedness clauses; completeness/uniqueness of "
           "the enumeration is a graph property and is not decided.")
 def check_c11(ctx, R):
     P = ctx.P
@@ -754,7 +754,9 @@ def _selection_sets(f):
           "sites (the Wire/pin branches of the raw generators and the work-list helpers) — an ill-typed reference is never valid, so it is "
           "dropped by the work list and the closure is incomplete; H5 Selection dispatch: the argument validation accepts exactly the members "
           "the body handles, every dispatch block covers them, and every branch set that contains INSIDE or OUTSIDE also contains ALL; H9 the "
-          "closure's exclusion filters compare whole references, never bare items (items are shared between occurrences). Decides "
+          "closure's exclusion filters compare whole references, never bare items (items are shared between occurrences); a reference built "
+          "around a parent link that can be None (element removed from its parent) is never yielded without a test in between; H11' yields of the "
+          "raw generators and of the work-list closures are de-duplicated on the value yielded. Decides "
           "well-formedness of what the closure builds; that the closure equals the electrical net for every start point is not decided.")
 def check_c12(ctx, R):
     P = ctx.P
